@@ -88,6 +88,10 @@ theorem senTables_ok : TablesOK senTables where
     have h3 : escOK Gen.Sen.escByteMap = true := by decide +kernel
     simp only [escOK, List.all_eq_true, beq_iff_eq] at h3
     simpa [senTables] using h3 b (escOk_mem b hb)
+  -- the regenerated length tests of the BOM handling (`cnt < 4`, `3 < len(buf)`) of sen/parser.go …
+  bomP := by decide
+  -- … and of sen/tokenizer.go
+  bomT := by decide
 
 /-- the action codes of `sen/maps.go` are pairwise distinct -/
 theorem codes_distinct : codeList.Nodup := by decide +kernel
@@ -180,16 +184,65 @@ theorem runChunks_eq_ref (s : St) (p : Pos) (cs : List Bytes) :
 theorem finish_eq_ref (s : St) (p : Pos) : finish T cfg s p = finish refTables cfg s p := by
   unfold finish; rw [fin_eq_ref hT]
 
+theorem bom_eq_ref : T.bom cfg = refTables.bom cfg := by
+  unfold Tables.bom
+  rw [hT.bomP, hT.bomT]
+  rfl
+
 /-- **The machine over a table set that passes `TablesOK` is the machine over the readable reference**:
 same documents / callbacks, same error kind, line and column, same deviation marks, for the parser and
 the tokenizer profile, every configuration, every prior instance state and every chunking. -/
 theorem call_eq_ref (prev : St) (chunks : List Bytes) : call T cfg prev chunks = call refTables cfg prev chunks := by
-  unfold call
+  unfold call callWith
+  rw [bom_eq_ref hT]
   simp only [runChunks_eq_ref hT, finish_eq_ref hT]
 
 theorem run_eq_ref (chunks : List Bytes) : run T cfg chunks = run refTables cfg chunks :=
   call_eq_ref hT cfg {} chunks
 
 end eqref
+
+/-! ## the reference BOM handling is the one of the JSON machine (`Json.topUp`, `Json.bomRuleReader`, `Json.bomRule`) -/
+
+theorem topUpAuxN_four (acc : Bytes) (cs : List Bytes) : topUpAuxN 4 acc cs = Json.topUpAux acc cs := by
+  induction cs generalizing acc with
+  | nil => rfl
+  | cons d rest ih =>
+    simp only [topUpAuxN, Json.topUpAux, ih]
+
+theorem topUpN_four : topUpN 4 = Json.topUp := by
+  funext cs
+  cases cs with
+  | nil => rfl
+  | cons c r => exact topUpAuxN_four c r
+
+theorem bomRuleReaderN_three : bomRuleReaderN 3 = Json.bomRuleReader := by
+  funext bs
+  unfold bomRuleReaderN
+  split
+  next r => cases r <;> simp [Json.bomRuleReader]
+  next h =>
+    unfold Json.bomRuleReader
+    split
+    next r => exact absurd rfl (h r)
+    next => rfl
+
+theorem bomRuleN_three : bomRuleN 3 = Json.bomRule := by
+  funext bs
+  unfold bomRuleN
+  split
+  next b1 b2 r => cases r <;> simp [Json.bomRule]
+  next h =>
+    unfold Json.bomRule
+    split
+    next b1 b2 r => exact absurd rfl (h b1 b2 r)
+    next => rfl
+
+/-- over the reference tables a call is the call with the BOM handling of the JSON machine -/
+theorem call_ref (cfg : Cfg) (prev : St) (chunks : List Bytes) :
+    call refTables cfg prev chunks = callWith refTables cfg Json.topUp Json.bomRuleReader Json.bomRule prev chunks := by
+  unfold call
+  have : refTables.bom cfg = {} := by unfold Tables.bom refTables; split <;> rfl
+  rw [this, topUpN_four, bomRuleReaderN_three, bomRuleN_three]
 
 end OjgVerif.Sen
